@@ -167,6 +167,15 @@ class Result:
     pass
 
 
+def seed_for_server_deals(scenario):
+    """Boards that leave the deal to the table manager are dealt with the global `random` module by the main thread, in
+    board order: seeded from the scenario, the deals are a function of the scenario alone (not of the schedule)."""
+    if any(b.get('server_deals') for b in scenario['boards']) or any(b.get('server_deals') for b in (scenario.get('table2') or {}).get('boards', [])):
+        import random
+        from vf.common.core import h64
+        random.seed(h64([b['id'] for b in scenario['boards']] + [len(scenario['boards'])]))
+
+
 def make_settings(scenario):
     from bridge_env.data_handler.abstract_classes import BoardSetting
     out = []
@@ -174,7 +183,7 @@ def make_settings(scenario):
         dda = None
         if b.get('dda') is not None:
             dda = {be.SEAT[s]: {be.SUIT[k]: b['dda'][s][k] for k in range(5)} for s in range(4)}
-        out.append(BoardSetting(hands=be.hands_from_owner(b['owner']), dealer=be.SEAT[b['dealer']],
+        out.append(BoardSetting(hands=None if b.get('server_deals') else be.hands_from_owner(b['owner']), dealer=be.SEAT[b['dealer']],
                                 vul=be.VUL[b['vul']], board_id=b['id'], dda=dda))
     return out
 
@@ -250,6 +259,7 @@ def run_session(scenario, schedule, clients=None, fault=None, kernel_hook=None, 
     res.server_tb = None
     inst = Installed(kernel, net)
     inst.install()
+    seed_for_server_deals(scenario)
     try:
         if server_obj is None:
             server = Server(ip_address=ADDR[0], port=ADDR[1], output_file_path=pathlib.Path(out_path),
